@@ -286,6 +286,25 @@ def gen_pool(rng):
         'height': {'t': 'npf', 'v': 3.0},
         'angle': {'t': 'angle', 'v': rng.pick([400.0, -725.0, 1.2]),
                   'u': rng.pick(['deg', 'rad'])}}})
+    exotic = [{'t': 'sky', 'lon': 10.0, 'lat': 20.0, 'frame': 'icrs',
+               'distance': 1.0, 'representation': 'cartesian'},
+              {'t': 'sky', 'lon': 10.0, 'lat': 20.0, 'frame': 'icrs',
+               'distance': 2.5},
+              {'t': 'sky', 'lon': 83.6, 'lat': 22.0, 'frame': 'fk4',
+               'obstime': 'J1980'},
+              {'t': 'sky', 'lon': 10.0, 'lat': 20.0, 'frame': 'galactic',
+               'representation': 'unitspherical'}]
+    for c in rng.sample(['CircleSkyRegion', 'EllipseSkyRegion',
+                         'RectangleSkyRegion', 'TextSkyRegion',
+                         'PointSkyRegion', 'CircleAnnulusSkyRegion'], 3):
+        r = gen.region_from_tokens(c, gen.draw_tokens(rng, c, small=True))
+        r['params']['center'] = dict(rng.pick(exotic))
+        add('skyreg', r)
+    add('skyreg', {'t': 'region', 'cls': 'PolygonSkyRegion', 'params': {
+        'vertices': {'t': 'sky', 'lon': [10.0, 10.01, 9.99],
+                     'lat': [20.0, 20.01, 19.99], 'frame': 'icrs',
+                     'distance': 1.0,
+                     'representation': rng.pick(['cartesian', None])}}})
     add('pixcomp', gen.compound_region(rng, sky=False, depth=1))
     add('pixcomp', _annulus_like(rng))
     add('skycomp', gen.compound_region(rng, sky=True, depth=1))
@@ -1185,6 +1204,25 @@ class Exec:
                 cut = len(data) // 2 if c == 1 else 7
                 with open(path, 'wb') as fh:
                     fh.write(data[:cut])               # truncated file
+        elif a.rng.chance(0.25):
+            # a file whose NAME says one format and whose CONTENT another
+            # (a CASA file saved as *.reg ...), read without a format: which
+            # identifier wins must not depend on what was identified before
+            a.fired = False
+            other = a.rng.pick([e for e in ('.reg', '.crtf', '.fits', '.ds9')
+                                if e not in {'ds9': ('.reg', '.ds9'),
+                                             'crtf': ('.crtf',),
+                                             'fits': ('.fits',)}[fmt]])
+            src = path
+            path = os.path.join(
+                self.disk,
+                f'm{a.r % 1000003}{"b" if a.repeat else ""}{other}')
+            with open(src, 'rb') as fh:
+                data = fh.read()
+            with open(path, 'wb') as fh:
+                fh.write(data)
+            form = None
+            f = f'{f} as *{other}'
         if a.rng.chance(0.3):
             import pathlib
             path = pathlib.Path(path)
@@ -1601,6 +1639,13 @@ def battery_plan():
             kw = {'coordsys': 'image'} if (fmt == 'crtf' and not sky) else {}
             op('serialize_fixed', [lst], fmt=fmt, kw=kw)
             op('io_fixed', [lst], fmt=fmt, kw=kw)
+    t = add('text:crtf', {'t': 'datafile',
+                          'path': 'io/crtf/tests/data/CRTFgeneral.crtf'})
+    op('mislabel_fixed', [t], ext='.reg')
+    t = add('text:ds9', {'t': 'datafile',
+                         'path': 'io/ds9/tests/data/ds9.fk5.reg'})
+    op('mislabel_fixed', [t], ext='.crtf')
+    op('mislabel_fixed', [t], ext='.fits')
     c1 = add('pixreg', gen.region_from_tokens(
         'EllipsePixelRegion', gen.draw_tokens(rng, 'EllipsePixelRegion',
                                               small=True)))
@@ -1672,6 +1717,16 @@ def _battery_ops(ex):
             with open(path, 'rb') as fh:
                 data = fh.read()
             return [hashlib.sha1(data).hexdigest(), Regions.read(path)]
+        return fn
+
+    def mislabel_fixed(a, op):
+        text = a.slot(('x',))
+        path = os.path.join(ex.disk, 'mislabelled' + op['ext'])
+
+        def fn():
+            with open(path, 'w') as fh:
+                fh.write(text)
+            return Regions.read(path)
         return fn
 
     def misc_fixed(a, op):
